@@ -1,4 +1,5 @@
 """C08 - velocity / displacement are cumulative trapezoid integrals; peaks are max abs."""
+import hashlib
 import math
 
 import numpy as np
@@ -14,12 +15,32 @@ from pbt.core import clause, enum_clause
 PROPERTY = "C08"
 CLAUSES = []
 ASSUMPTIONS = [
-    "records are finite float64 (or integer / list variants), 2 <= n <= 5000, |a| <= 1e9",
-    "rectangle rule (trap=False): either endpoint accepted as long as it is the same for every i and the series start at 0",
-    "rounding bound for a running sum of k terms: eps*(k+4)*sum|terms| (standard recursive-summation bound)",
+    "records are finite float64 arrays or int64 / list / non-contiguous / negative-stride / read-only variants holding such values, "
+    "2 <= n <= 5000 (drawn), 60 000..150 000 (drawn, 1 in 40), 2 000..300 000 (mid-range ladder, thorough to 2e6), about 1e6..3e6 "
+    "(giant-records); |a| <= 1e9.  Narrow integer dtypes and float32 records are not generated here (handled centrally)",
+    "trap is a Python bool (True / False, by keyword or positionally).  numpy bools and integers are not generated: the pinned tree "
+    "tests `trap is False`, so np.False_ / 0 select the trapezoid - reported to the maintainers of the framework, not asserted here",
+    "rectangle rule (trap=False): either endpoint accepted as long as it is the same for every i and the series start at 0 "
+    "(the statement does not fix the endpoint)",
+    "rounding, local: |(s[i]-s[i-1]) - increment| <= 4 eps (2 max_{j<=i}|s[j]| + dt (|x[i]|+|x[i-1]|)/2): the intermediates of ANY "
+    "evaluation order (sequential, blocked with a carry, prefix scan) are sums over sub-ranges of [0, i], each at most "
+    "2 max_{j<=i}|s[j]|; exact equality on dyadic data (every order is exact there)",
+    "rounding, global: |s[k] - long-double running sum| <= eps (k+4) sum_{i<=k} dt (|x[i]|+|x[i-1]|)/2 (any summation order of k terms)",
+    "object level (AccSignal) is held to the same reference model as the array level, not to bit-equality with it; after "
+    "reset_values(new array) and after the library's own set_zero_residual_velocity the series and peaks are those of the record the "
+    "object holds now (the statement quantifies over every record an object can hold)",
+    "integer variant: counts round(a * s) with s chosen so that the largest |count| is 10^3..10^6 (int64)",
 ]
 EPS = np.finfo(float).eps
 LD = np.longdouble
+
+
+def _hh(*parts):
+    return int(hashlib.blake2b(":".join(str(p) for p in parts).encode(), digest_size=8).hexdigest(), 16)
+
+
+def _hu(*parts):
+    return (_hh(*parts) % 10 ** 6) / 1e6
 
 
 def _dyadic_dt():
@@ -27,15 +48,27 @@ def _dyadic_dt():
 
 
 @st.composite
-def _cases(draw):
-    if draw(st.integers(0, 39)) == 0:
+def _cases(draw, long_one_in=40):
+    if draw(st.integers(0, long_one_in - 1)) == 0:
         # very long records (tens of minutes at 100-200 Hz)
         spec = draw(gen.record_specs(min_n=60000, max_n=150000, kinds=["noise", "quake", "walk", "sines"], allow_zero_runs=False))
     else:
         spec = draw(gen.record_specs(min_n=2, max_n=5000, allow_int=True))
     exact = spec["k"] == "dyadic" and draw(st.booleans())
     dt = draw(_dyadic_dt()) if exact else draw(gen.dts(1e-4, 2.0))
-    return {"rec": spec, "dt": dt, "trap": draw(st.booleans()), "exact": exact}
+    return {"rec": spec, "dt": dt, "trap": draw(st.booleans()), "exact": exact, "alias": draw(st.booleans()),
+            "order": draw(st.integers(0, 119)), "k2": draw(st.integers(-8, 8)), "peek": draw(st.integers(0, 3))}
+
+
+def _container(spec, a0):
+    """(what the caller hands over, the float64 values it stands for)."""
+    if spec.get("as") == "int":
+        top = float(np.max(np.abs(a0))) if len(a0) else 0.0
+        s = 10.0 ** (3 + _hh("int", len(a0), spec.get("seed", 0)) % 4) / top if 0 < top < 1e3 else 1.0
+        arg = np.array(np.round(a0 * s), dtype=np.int64)
+        return arg, arg.astype(float)
+    arg = gen.as_container(spec, a0)
+    return arg, np.array(arg, dtype=float)
 
 
 def _classify(ctx, spec, a, case):
@@ -48,123 +81,171 @@ def _classify(ctx, spec, a, case):
 
 
 def _run_bound(terms):
-    """eps*(k+4)*running sum |terms| for a sequentially accumulated sum."""
+    """eps*(k+4)*running sum |terms| for a sum of k terms accumulated in any order."""
     k = np.arange(1, len(terms) + 1, dtype=float)
     return EPS * (k + 4) * np.cumsum(np.abs(terms))
 
 
-@clause(CLAUSES, "increments", _cases(), quick=700, thorough=3000,
-        rule="records of all kinds (n 2..5000, float/int/list), dt log-uniform or dyadic, trap in {T,F}; "
-             "non-trivial = record has >= 2 sign changes",
-        oracle="reference model: long-double loop over the defining increments; equality on dyadic data")
+def _check_integral(ctx, what, x, s, dt, trap, exact):
+    """s is the cumulative integral of x: starts at 0; s[i]-s[i-1] = dt (x[i]+x[i-1])/2 (trap) or dt x[i-1] / dt x[i] for every i (rectangle);
+    and s agrees with the long-double running sum of those increments (no drift hidden by the local tolerance)."""
+    n = len(x)
+    ctx.shape(s, (n,), what)
+    ctx.check(s[0] == 0, "%s does not start at zero: %r" % (what, s[0]))
+    xl = np.asarray(x).astype(LD)
+    sl = np.asarray(s).astype(LD)
+    ds = sl[1:] - sl[:-1]
+    if trap:
+        cands = [("trapezoid", LD(dt) * (xl[1:] + xl[:-1]) / 2)]
+    else:
+        cands = [("left rectangle", LD(dt) * xl[:-1]), ("right rectangle", LD(dt) * xl[1:])]
+    ax = np.abs(np.asarray(x, dtype=float))
+    terms = abs(dt) * (ax[1:] + ax[:-1]) / 2
+    if exact:
+        tol = np.zeros(n - 1)
+        gtol = np.zeros(n)
+    else:
+        runmax = np.maximum.accumulate(np.abs(np.asarray(s, dtype=float)))
+        tol = 4 * EPS * (2 * runmax[1:] + terms)
+        gtol = np.concatenate([[0.0], _run_bound(terms)])
+    worst = None
+    for name, inc in cands:
+        err = np.abs(ds - inc)
+        if bool(np.all(err <= tol + core.TINY)):
+            ref = np.concatenate([[LD(0)], np.cumsum(inc)])
+            ctx.close(s, ref, gtol, "%s vs long-double running sum of the %s increments (n=%d)" % (what, name, n))
+            return name
+        j = int(np.argmax(err - tol))
+        if worst is None:
+            worst = (j, float(ds[j]), float(inc[j]), name)
+    j, got, want, name = worst
+    ctx.fail("%s increment %d: got %r, expected %r (%s%s, dt=%r, n=%d)" % (
+        what, j + 1, got, want, name, "" if trap else " - nor the other endpoint throughout", dt, n))
+
+
+def _check_series(ctx, what, a, dt, v, d, trap, exact=False):
+    """The statement for one (record, velocity, displacement) triple."""
+    a = np.asarray(a, dtype=float)
+    v = np.asarray(v)
+    d = np.asarray(d)
+    ctx.check(v.dtype.kind == "f" and d.dtype.kind == "f", "%s: series of dtype %s / %s" % (what, v.dtype, d.dtype))
+    _check_integral(ctx, what + " velocity", a, v, dt, trap, exact)
+    _check_integral(ctx, what + " displacement", v, d, dt, trap, exact)
+
+
+def _maxabs(x):
+    return np.max(np.abs(np.asarray(x)))
+
+
+_READS = ["velocity", "displacement", "pga", "pgv", "pgd"]
+
+
+def _read_order(k):
+    """k in 0..119 -> a permutation of the five lazily loaded attributes (k // 24 is the attribute read first)."""
+    names = list(_READS)
+    out = []
+    k = int(k) % 120
+    for base in (24, 6, 2, 1, 1):
+        out.append(names.pop((k // base) % len(names)))
+        k %= base
+    return out
+
+
+def _order_first(first, k):
+    """A read order beginning with _READS[first]; the rest permuted by k."""
+    return _read_order(24 * (int(first) % 5) + int(k) % 24)
+
+
+def _check_object(ctx, what, asig, a, dt, trap, order, exact=False):
+    """Read the five attributes of an AccSignal in the given order and hold them to the statement for the record `a`."""
+    got = {}
+    for name in order:
+        got[name] = ctx.lib(lambda nm=name: getattr(asig, nm))
+    _check_series(ctx, what, a, dt, got["velocity"], got["displacement"], trap, exact)
+    want = {"pga": _maxabs(a), "pgv": _maxabs(got["velocity"]), "pgd": _maxabs(got["displacement"])}
+    for name in ("pga", "pgv", "pgd"):
+        ctx.check(got[name] == want[name], "%s: %s = %r, max|.| of the series = %r (read order %s)" % (what, name, got[name], want[name], order))
+        again = ctx.lib(lambda nm=name: getattr(asig, nm))
+        ctx.check(again == got[name], "%s: %s changed on re-read: %r then %r" % (what, name, got[name], again))
+    return got
+
+
+@clause(CLAUSES, "increments", _cases(), quick=600, thorough=3000,
+        rule="records of all kinds (n 2..5000, float64 / int64 / list / view / negative stride / read-only), dt log-uniform or dyadic, "
+             "trap in {T,F} by keyword or positionally, either array-level entry point; non-trivial = record has >= 2 sign changes",
+        oracle="reference model: long-double loop over the defining increments (local bound) and their running sum (global bound) for "
+               "velocity and displacement; equality on dyadic data",
+        require={"as=list": 0.02, "rect": 0.25})
 def increments(case, ctx):
     spec = case["rec"]
     a0 = gen.build(spec)
-    arg = gen.as_container(spec, a0)
-    a = np.array(arg, dtype=float)  # what the library sees (int variant rounds)
+    arg, a = _container(spec, a0)
     dt = case["dt"]
     trap = case["trap"]
     _classify(ctx, spec, a, case)
-    n = len(a)
-    if isinstance(arg, list) and not trap:
-        arg = np.array(arg)  # `acceleration * dt` on a list is outside "records" for the rectangle branch
+    fn = disp_mod.velocity_and_displacement_from_acceleration if case.get("alias") else disp_mod.calc_velo_and_disp_from_accel_arr
+    ctx.cls("entry=" + ("alias" if case.get("alias") else "calc"))
     # the flag by keyword, or positionally as documented (acceleration, dt, trap) in one case out of three
-    v, d = ctx.libf(core.call_form(case), disp_mod.calc_velo_and_disp_from_accel_arr, ["trap"], arg, dt, trap=trap)
-    v = np.asarray(v)
-    d = np.asarray(d)
-    ctx.shape(v, (n,), "velocity")
-    ctx.shape(d, (n,), "displacement")
-    ctx.check(v[0] == 0 and d[0] == 0, "series do not start at zero: v0=%r d0=%r" % (v[0], d[0]))
-    al = a.astype(LD)
-    vl = v.astype(LD)
-    dl = d.astype(LD)
-    dv = vl[1:] - vl[:-1]
-    dd = dl[1:] - dl[:-1]
+    v, d = ctx.libf(core.call_form(case), fn, ["trap"], arg, dt, trap=trap)
+    _check_series(ctx, fn.__name__, a, dt, v, d, trap, case["exact"])
     if trap:
-        inc_v = [LD(dt) * (al[1:] + al[:-1]) / 2]
-        inc_d = [LD(dt) * (vl[1:] + vl[:-1]) / 2]
-    else:
-        inc_v = [LD(dt) * al[:-1], LD(dt) * al[1:]]
-        inc_d = [LD(dt) * vl[:-1], LD(dt) * vl[1:]]
-    if case["exact"]:
-        tol_v = np.zeros(n - 1)
-        tol_d = np.zeros(n - 1)
-    else:
-        tol_v = 4 * EPS * (np.abs(v[1:]) + np.abs(v[:-1]) + np.abs(np.asarray(inc_v[0], dtype=float)))
-        tol_d = 4 * EPS * (np.abs(d[1:]) + np.abs(d[:-1]) + np.abs(np.asarray(inc_d[0], dtype=float)))
-    ok_v = [bool(np.all(np.abs(dv - iv) <= tol_v + core.TINY)) for iv in inc_v]
-    ok_d = [bool(np.all(np.abs(dd - idd) <= tol_d + core.TINY)) for idd in inc_d]
-    if not any(ok_v):
-        j = int(np.argmax(np.abs(dv - inc_v[0]) - tol_v))
-        ctx.fail("velocity increment %d: got %r, expected %r (trap=%s, dt=%r)" % (
-            j + 1, float(dv[j]), float(inc_v[0][j]), trap, dt))
-    if not any(ok_d):
-        j = int(np.argmax(np.abs(dd - inc_d[0]) - tol_d))
-        ctx.fail("displacement increment %d: got %r, expected %r (trap=%s, dt=%r)" % (
-            j + 1, float(dd[j]), float(inc_d[0][j]), trap, dt))
-    # global agreement with the long-double running sum (guards against drift hidden by local tolerances)
-    which = ok_v.index(True)
-    vref = np.concatenate([[LD(0)], np.cumsum(inc_v[which])])
-    ctx.close(v, vref, np.concatenate([[0.0], _run_bound(np.asarray(inc_v[which], dtype=float))]) if not case["exact"] else 0.0,
-              "velocity vs long-double running sum")
+        v, d = ctx.lib(fn, arg, dt)
+        _check_series(ctx, fn.__name__ + " (default trap)", a, dt, v, d, True, case["exact"])
 
 
-@clause(CLAUSES, "object-level", _cases(), quick=300, thorough=1500,
-        rule="same generator; AccSignal(values, dt).velocity/.displacement/.pga/.pgv/.pgd and im.calc_peak; "
-             "non-trivial = >= 2 sign changes",
-        oracle="differential (object vs array level, exact) + reference max|.| (exact) + metamorphic sign flip / 2^k scaling (exact)")
+@clause(CLAUSES, "object-level", _cases(long_one_in=200), quick=300, thorough=1500,
+        rule="same generator; AccSignal(values, dt): velocity / displacement / pga / pgv / pgd read in a drawn order (each of them first in a "
+             "fifth of the cases), switching the rectangle rule on and off with peaks read in between, a new record through reset_values, "
+             "im.calc_peak; non-trivial = >= 2 sign changes",
+        oracle="reference model (as `increments`) on the object's series + peaks == max|.| (exact: a maximum is one of the values) + "
+               "metamorphic sign flip / 2^k scaling (exact)",
+        require={"first=displacement": 0.08, "first=pgd": 0.08, "rect": 0.25})
 def object_level(case, ctx):
     spec = case["rec"]
     a0 = gen.build(spec)
-    arg = gen.as_container(spec, a0)
-    a = np.array(arg, dtype=float)
+    arg, a = _container(spec, a0)
     dt = case["dt"]
+    exact = case["exact"]
     _classify(ctx, spec, a, case)
     n = len(a)
+    order = _read_order(case.get("order", 0))
+    ctx.cls("first=" + order[0])
     asig = ctx.lib(eqsig.AccSignal, arg, dt)
-    v = ctx.lib(lambda: asig.velocity)
-    d = ctx.lib(lambda: asig.displacement)
-    v2, d2 = ctx.lib(disp_mod.calc_velo_and_disp_from_accel_arr, np.array(arg), dt, trap=True)
-    ctx.equal(v, v2, "AccSignal.velocity vs array level")
-    ctx.equal(d, d2, "AccSignal.displacement vs array level")
-    ctx.shape(v, (n,), "velocity")
-    for trap in (True, False):
-        form = core.call_form(case)
-        v3, d3 = ctx.libf(form, disp_mod.velocity_and_displacement_from_acceleration, ["trap"], np.array(arg), dt, trap=trap)
-        v4, d4 = ctx.libf("kw" if form == "pos" else "pos", disp_mod.calc_velo_and_disp_from_accel_arr, ["trap"], np.array(arg), dt, trap=trap)
-        ctx.equal(v3, v4, "velocity_and_displacement_from_acceleration vs calc_velo_and_disp_from_accel_arr (velocity, trap=%s)" % trap)
-        ctx.equal(d3, d4, "velocity_and_displacement_from_acceleration vs calc_velo_and_disp_from_accel_arr (displacement, trap=%s)" % trap)
+    got = _check_object(ctx, "AccSignal", asig, a, dt, True, order, exact)
+    pga, pgv, pgd = got["pga"], got["pgv"], got["pgd"]
+    v, d = np.asarray(got["velocity"]), np.asarray(got["displacement"])
     if not case.get("trap", True):
-        # switching trapezoid integration off at object level: on a fresh object and on one whose default series were already read
+        # switching trapezoid integration off at object level: on a fresh object (nothing read yet) and on one whose default series
+        # and peaks were already read; the peaks read after each switch are those of the series generated last
+        peek = case.get("peek", 0)
         for label, other in (("fresh object", ctx.lib(eqsig.AccSignal, arg, dt)), ("object with cached default series", asig)):
             ctx.libf(core.call_form(case), other.generate_displacement_and_velocity_series, ["trap"], trap=False)
-            ctx.equal(other.velocity, v4, "generate_displacement_and_velocity_series(trap=False) velocity vs array level (%s)" % label)
-            ctx.equal(other.displacement, d4, "generate_displacement_and_velocity_series(trap=False) displacement vs array level (%s)" % label)
-            ctx.lib(other.generate_displacement_and_velocity_series, trap=True)
-            ctx.equal(other.velocity, v2, "generate_displacement_and_velocity_series(trap=True) restores the trapezoid velocity (%s)" % label)
-            ctx.equal(other.displacement, d2, "generate_displacement_and_velocity_series(trap=True) restores the trapezoid displacement (%s)" % label)
-    pga = ctx.lib(lambda: asig.pga)
-    pgv = ctx.lib(lambda: asig.pgv)
-    pgd = ctx.lib(lambda: asig.pgd)
-    ctx.check(pga == np.max(np.abs(a)), "pga %r != max|a| %r" % (pga, np.max(np.abs(a))))
-    ctx.check(pgv == np.max(np.abs(v)), "pgv %r != max|v| %r" % (pgv, np.max(np.abs(v))))
-    ctx.check(pgd == np.max(np.abs(d)), "pgd %r != max|d| %r" % (pgd, np.max(np.abs(d))))
-    for name, ser in (("a", a), ("v", np.asarray(v)), ("d", np.asarray(d))):
+            o2 = _order_first(3 + peek % 2, case.get("order", 0))  # pgv or pgd first
+            _check_object(ctx, "after generate_displacement_and_velocity_series(trap=False), %s:" % label, other, a, dt, False, o2, exact)
+            if peek >= 2:
+                ctx.lib(other.generate_displacement_and_velocity_series)
+            else:
+                ctx.lib(other.generate_displacement_and_velocity_series, trap=True)
+            _check_object(ctx, "after generate_displacement_and_velocity_series(trap=True) again, %s:" % label, other, a, dt, True,
+                          _order_first(4 - peek % 2, case.get("order", 0) // 5), exact)
+    for name, ser in (("a", a), ("v", v), ("d", d)):
         pk = ctx.lib(im.calc_peak, ser)
-        ctx.check(pk == np.max(np.abs(ser)), "calc_peak(%s)=%r != max abs %r" % (name, pk, np.max(np.abs(ser))))
+        ctx.check(pk == _maxabs(ser), "calc_peak(%s)=%r != max abs %r" % (name, pk, _maxabs(ser)))
         pk2 = ctx.lib(im.calc_peak, -ser)
         ctx.check(pk2 == pk, "calc_peak not invariant to sign reversal: %r vs %r" % (pk2, pk))
-    # second read is idempotent
-    ctx.check(asig.pga == pga and asig.pgv == pgv and asig.pgd == pgd, "peak values changed on re-read")
-    # the series and peaks describe the record the object holds NOW: repeat after an in-place edit handed back through
-    # reset_values (the idiom the library's own baseline corrections use) and after such a correction
-    if np.asarray(asig.values).dtype.kind == "f" and n >= 3 and np.any(a):
+    if n <= 2000:
+        pk3 = ctx.lib(im.calc_peak, [float(x) for x in a])
+        ctx.check(pk3 == _maxabs(a), "calc_peak(list)=%r != max abs %r" % (pk3, _maxabs(a)))
+    # the series and peaks describe the record the object holds NOW: a new record handed over through reset_values, then the
+    # library's own residual-velocity correction
+    if n >= 3 and np.any(a):
         m = ctx.lib(eqsig.AccSignal, np.array(a, dtype=float), dt)
-        _ = (m.velocity, m.displacement, m.pga, m.pgv, m.pgd)
-        vals = m.values
-        vals[n // 2] += 0.5 * (np.max(np.abs(a)) or 1.0)
-        ctx.lib(m.reset_values, vals)
-        for step in ("edit + reset_values", "set_zero_residual_velocity"):
+        for name in order[:1 + case.get("order", 0) % 5]:
+            getattr(m, name)
+        new = np.array(a, dtype=float)
+        new[n // 2] += 0.5 * float(_maxabs(a))
+        ctx.lib(m.reset_values, new)
+        for step in ("reset_values(new record)", "set_zero_residual_velocity"):
             if step == "set_zero_residual_velocity":
                 try:
                     m.set_zero_residual_velocity()
@@ -173,20 +254,15 @@ def object_level(case, ctx):
             cur = np.array(m.values, dtype=float)
             if not np.all(np.isfinite(cur)):
                 break
-            v6, d6 = disp_mod.calc_velo_and_disp_from_accel_arr(cur, dt, trap=True)
-            ctx.equal(m.velocity, v6, "AccSignal.velocity vs array level after %s" % step)
-            ctx.equal(m.displacement, d6, "AccSignal.displacement vs array level after %s" % step)
-            ctx.check(m.pga == np.max(np.abs(cur)) and m.pgv == np.max(np.abs(v6)) and m.pgd == np.max(np.abs(d6)),
-                      "peaks %r after %s do not match the current record (%r)" % (
-                          (m.pga, m.pgv, m.pgd), step, (np.max(np.abs(cur)), np.max(np.abs(v6)), np.max(np.abs(d6)))))
+            _check_object(ctx, "after %s:" % step, m, cur, dt, True, _read_order(case.get("order", 0) * 13 + 5 + 24 * (step != "set_zero_residual_velocity")), False)
         ctx.cls("after-edit")
     # sign flip and power-of-two scaling are exact
     k = case.get("k2", 3)
     flip = ctx.lib(eqsig.AccSignal, -a, dt)
-    ctx.check(flip.pga == pga and flip.pgv == pgv and flip.pgd == pgd,
+    ctx.check(flip.pgd == pgd and flip.pgv == pgv and flip.pga == pga,
               "peaks not invariant to sign reversal: %r vs %r" % ((flip.pga, flip.pgv, flip.pgd), (pga, pgv, pgd)))
     sc = ctx.lib(eqsig.AccSignal, a * 2.0 ** k, dt)
-    ctx.check(sc.pga == pga * 2.0 ** k and sc.pgv == pgv * 2.0 ** k and sc.pgd == pgd * 2.0 ** k,
+    ctx.check(sc.pga == pga * 2.0 ** k and sc.pgd == pgd * 2.0 ** k and sc.pgv == pgv * 2.0 ** k,
               "peaks do not scale exactly by 2^%d" % k)
 
 
@@ -205,62 +281,80 @@ def _lin_cases(draw):
         case["rb"] = draw(gen.record_specs(min_n=n, max_n=n, small_max=n, allow_zero_runs=False))
         case["alpha"] = draw(gen.scalars())
         case["beta"] = draw(gen.scalars())
+        case["trap"] = draw(st.booleans())
     return case
 
 
+def _closed_forms(ctx, c, s, n, dt, kind):
+    """Constant / linearly varying acceleration against c t, c t^2/2, s t^2/2 (the trapezoid is exact for them)."""
+    f = disp_mod.calc_velo_and_disp_from_accel_arr
+    t = np.arange(n, dtype=LD) * LD(dt)
+    c = LD(c)
+    s = LD(s)
+    a = np.asarray(c + s * t, dtype=float)
+    v, d = ctx.lib(f, a, dt, trap=True)
+    al = a.astype(LD)
+    # the trapezoid is exact for linearly varying a: v(t) = integral of the interpolant of the *stored* samples
+    inc = LD(dt) * (al[1:] + al[:-1]) / 2
+    vex = c * t + s * t * t / 2
+    # stored samples differ from c+s*t by rounding eps*|a|; allow for that in the closed form comparison
+    bound = np.concatenate([[0.0], _run_bound(np.asarray(inc, dtype=float))]) + EPS * np.asarray(np.abs(t), dtype=float) * np.max(np.abs(a)) * 2
+    ctx.close(v, vex, bound, "velocity of %s acceleration vs closed form (n=%d)" % (kind, n))
+    # displacement = trapezoid of the exact v (closed form for constant a: c t^2/2 exactly since v is linear)
+    vl = np.asarray(v).astype(LD)
+    incd = LD(dt) * (vl[1:] + vl[:-1]) / 2
+    dref = np.concatenate([[LD(0)], np.cumsum(incd)])
+    bd = np.concatenate([[0.0], _run_bound(np.asarray(incd, dtype=float))])
+    ctx.close(d, dref, bd, "displacement vs trapezoid of velocity (n=%d)" % n)
+    if kind == "const":
+        dex = c * t * t / 2
+        bd2 = bd + np.asarray(np.abs(t), dtype=float) * np.concatenate([[0.0], np.maximum.accumulate(bound[1:])])
+        ctx.close(d, dex, bd2, "displacement of constant acceleration vs c*t^2/2 (n=%d)" % n)
+    return a
+
+
+def _linearity(ctx, a, b, al, be, dt, trap):
+    f = disp_mod.calc_velo_and_disp_from_accel_arr
+    n = len(a)
+    va, da = ctx.lib(f, a, dt, trap=trap)
+    vb, db = ctx.lib(f, b, dt, trap=trap)
+    vc, dc = ctx.lib(f, al * a + be * b, dt, trap=trap)
+    terms = dt * (abs(al) * np.abs(a) + abs(be) * np.abs(b))
+    bv = 4 * EPS * (n + 4) * np.cumsum(terms)
+    ctx.close(vc, al * np.asarray(va) + be * np.asarray(vb), bv, "velocity linearity (trap=%s, n=%d)" % (trap, n))
+    bdd = 4 * EPS * (n + 4) * np.cumsum(dt * np.cumsum(terms)) + dt * np.cumsum(bv)
+    ctx.close(dc, al * np.asarray(da) + be * np.asarray(db), bdd, "displacement linearity (trap=%s, n=%d)" % (trap, n))
+
+
 @clause(CLAUSES, "consequences", _lin_cases(), quick=600, thorough=3000,
-        rule="constant / linearly varying records against closed forms, and pairs (a,b,alpha,beta) for linearity; "
+        rule="constant / linearly varying records against closed forms, and pairs (a,b,alpha,beta) for linearity under either rule; "
              "non-trivial = non-zero record(s)",
-        oracle="reference model (closed forms c*t, c*t^2/2, s*t^2/2) and metamorphic linearity, bound eps*(n+4)*running sum|increments|")
+        oracle="reference model (closed forms c*t, c*t^2/2, s*t^2/2) and metamorphic linearity / |alpha| scaling of pga, pgv, pgd, "
+               "bound eps*(n+4)*running sum|increments|")
 def consequences(case, ctx):
     n = case["n"]
     dt = case["dt"]
-    t = np.arange(n, dtype=LD) * LD(dt)
     ctx.cls("kind=" + case["kind"], gen.size_class(n))
-    f = disp_mod.calc_velo_and_disp_from_accel_arr
     if case["kind"] in ("const", "linear"):
-        c = LD(case["c"])
-        s = LD(case.get("s", 0.0))
-        a = np.asarray(c + s * t, dtype=float)
+        a = _closed_forms(ctx, case["c"], case.get("s", 0.0), n, dt, case["kind"])
         ctx.nt(bool(np.any(a != 0)))
-        v, d = ctx.lib(f, a, dt, trap=True)
-        al = a.astype(LD)
-        # the trapezoid is exact for linearly varying a: v(t) = integral of the interpolant of the *stored* samples
-        inc = LD(dt) * (al[1:] + al[:-1]) / 2
-        vex = c * t + s * t * t / 2
-        # stored samples differ from c+s*t by rounding eps*|a|; allow for that in the closed form comparison
-        bound = np.concatenate([[0.0], _run_bound(np.asarray(inc, dtype=float))]) + EPS * np.asarray(np.abs(t), dtype=float) * np.max(np.abs(a)) * 2
-        ctx.close(v, vex, bound, "velocity of %s acceleration vs closed form" % case["kind"])
-        # displacement = trapezoid of the exact v (closed form for constant a: c t^2/2 exactly since v is linear)
-        vl = np.asarray(v).astype(LD)
-        incd = LD(dt) * (vl[1:] + vl[:-1]) / 2
-        dref = np.concatenate([[LD(0)], np.cumsum(incd)])
-        bd = np.concatenate([[0.0], _run_bound(np.asarray(incd, dtype=float))])
-        ctx.close(d, dref, bd, "displacement vs trapezoid of velocity")
-        if case["kind"] == "const":
-            dex = c * t * t / 2
-            bd2 = bd + np.asarray(np.abs(t), dtype=float) * np.concatenate([[0.0], np.maximum.accumulate(bound[1:])])
-            ctx.close(d, dex, bd2, "displacement of constant acceleration vs c*t^2/2")
     else:
         a = gen.build(case["ra"])
         b = gen.build(case["rb"])
         al, be = case["alpha"], case["beta"]
+        trap = case.get("trap", True)
+        ctx.cls("trap" if trap else "rect")
         ctx.nt(bool(np.any(a != 0) and np.any(b != 0) and al != 0 and be != 0))
-        va, da = ctx.lib(f, a, dt, trap=True)
-        vb, db = ctx.lib(f, b, dt, trap=True)
-        vc, dc = ctx.lib(f, al * a + be * b, dt, trap=True)
-        terms = dt * (abs(al) * np.abs(a) + abs(be) * np.abs(b))
-        bv = 4 * EPS * (n + 4) * np.cumsum(terms)
-        ctx.close(vc, al * np.asarray(va) + be * np.asarray(vb), bv, "velocity linearity")
-        bdd = 4 * EPS * (n + 4) * np.cumsum(dt * np.cumsum(terms)) + dt * np.cumsum(bv)
-        ctx.close(dc, al * np.asarray(da) + be * np.asarray(db), bdd, "displacement linearity")
+        _linearity(ctx, a, b, al, be, dt, trap)
         # general |alpha| scaling of the peaks
         if al != 0 and np.any(a != 0):
             s0 = eqsig.AccSignal(a, dt)
             s1 = eqsig.AccSignal(al * a, dt)
             ctx.check(abs(s1.pga - abs(al) * s0.pga) <= 4 * EPS * abs(al) * s0.pga, "pga does not scale with |alpha|")
-            ctx.check(abs(s1.pgv - abs(al) * s0.pgv) <= abs(al) * 4 * EPS * (n + 4) * dt * np.sum(np.abs(a)),
-                      "pgv does not scale with |alpha|: %r vs %r" % (s1.pgv, abs(al) * s0.pgv))
+            bv = abs(al) * 4 * EPS * (n + 4) * dt * np.sum(np.abs(a))
+            ctx.check(abs(s1.pgv - abs(al) * s0.pgv) <= bv, "pgv does not scale with |alpha|: %r vs %r" % (s1.pgv, abs(al) * s0.pgv))
+            bd = abs(al) * 4 * EPS * (n + 4) * dt * dt * float(np.sum(np.cumsum(np.abs(a)))) + dt * n * bv
+            ctx.check(abs(s1.pgd - abs(al) * s0.pgd) <= bd, "pgd does not scale with |alpha|: %r vs %r" % (s1.pgd, abs(al) * s0.pgd))
 
 
 # ---------------------------------------------------------------------------
@@ -280,9 +374,9 @@ def _small_peak_enum(tier, shard, nshards):
 
 
 @enum_clause(CLAUSES, "peak-small-lengths", _small_peak_enum,
-             rule="every length 2..48 (thorough 2..160) x position of the largest |value| (first / middle / last) x its sign",
-             oracle="reference model: im.calc_peak == max|x| for the record, its velocity and displacement; AccSignal.pga / pgv / pgd == "
-                    "max|.| of the respective series; invariant to sign reversal",
+             rule="every length 2..48 (thorough 2..160) x position of the largest |value| (first / middle / last) x its sign; arrays and lists",
+             oracle="reference model: im.calc_peak (and its deprecated twin calculate_peak) == max|x| for the record, its velocity and "
+                    "displacement; AccSignal.pga / pgv / pgd == max|.| of the respective series; invariant to sign reversal",
              exhaustive_note="lengths x {first, middle, last} x {+, -}", quick_shards=1)
 def peak_small_lengths(case, ctx):
     n, where, sign = int(case["n"]), case["where"], float(case["sign"])
@@ -292,16 +386,21 @@ def peak_small_lengths(case, ctx):
     a[pos] = sign * 2.0
     ctx.nt(True)
     asig = ctx.lib(eqsig.AccSignal, a.copy(), 0.01)
-    v = np.asarray(ctx.lib(lambda: asig.velocity))
-    d = np.asarray(ctx.lib(lambda: asig.displacement))
+    order = _read_order(_hh("small", n, where, sign) % 120)
+    got = {name: ctx.lib(lambda nm=name: getattr(asig, nm)) for name in order}
+    v = np.asarray(got["velocity"])
+    d = np.asarray(got["displacement"])
     for name, ser in (("acceleration", a), ("velocity", v), ("displacement", d)):
         want = float(np.max(np.abs(ser)))
         for s_, lab in ((1.0, ""), (-1.0, " (sign reversed)")):
-            pk = ctx.lib(im.calc_peak, s_ * ser)
-            ctx.check(pk == want, "calc_peak(%s%s) = %r, max|.| = %r (n=%d, largest value %s at sample %d)" % (
-                name, lab, pk, want, n, "negative" if sign < 0 else "positive", pos))
-    ctx.check(asig.pga == 2.0 and asig.pgv == float(np.max(np.abs(v))) and asig.pgd == float(np.max(np.abs(d))),
-              "pga / pgv / pgd = %r / %r / %r vs max|.| (n=%d)" % (asig.pga, asig.pgv, asig.pgd, n))
+            for fn in (im.calc_peak, im.calculate_peak):
+                for cont in ("array", "list"):
+                    ser2 = s_ * ser if cont == "array" else [float(x) for x in s_ * ser]
+                    pk = ctx.lib(fn, ser2)
+                    ctx.check(pk == want, "%s(%s%s as %s) = %r, max|.| = %r (n=%d, largest value %s at sample %d)" % (
+                        fn.__name__, name, lab, cont, pk, want, n, "negative" if sign < 0 else "positive", pos))
+    ctx.check(got["pga"] == 2.0 and got["pgv"] == float(np.max(np.abs(v))) and got["pgd"] == float(np.max(np.abs(d))),
+              "pga / pgv / pgd = %r / %r / %r vs max|.| (n=%d, read order %s)" % (got["pga"], got["pgv"], got["pgd"], n, order))
 
 
 # very long records (continuous monitoring): lengths around 2^20 and 2^21
@@ -316,25 +415,173 @@ def _giant_enum(tier, shard, nshards):
 
 @enum_clause(CLAUSES, "giant-records", _giant_enum,
              rule="fixed very long records (about 1-3 million samples) at object and array level",
-             oracle="reference model: long-double cumulative trapezoid (bound eps*(k+4)*running sum|increments|); object level == array level "
-                    "(exact); peaks == max|.|",
+             oracle="reference model: long-double cumulative trapezoid (local bound + eps*(k+4)*running sum|increments|) at both levels; "
+                    "peaks == max|.|",
              exhaustive_note="the listed lengths", quick_shards=2)
 def giant_records(case, ctx):
     n, dt = case["n"], case["dt"]
     a = np.random.RandomState(case["seed"]).standard_normal(n) * np.hanning(n) + 0.01
     ctx.nt(True)
     asig = ctx.lib(eqsig.AccSignal, a, dt)
-    v = np.asarray(ctx.lib(lambda: asig.velocity))
-    d = np.asarray(ctx.lib(lambda: asig.displacement))
+    _check_object(ctx, "AccSignal (n=%d)" % n, asig, a, dt, True, _read_order(case["seed"] * 37))
     v2, d2 = ctx.lib(disp_mod.calc_velo_and_disp_from_accel_arr, a, dt, trap=True)
-    ctx.equal(v, v2, "AccSignal.velocity vs array level (n=%d)" % n)
-    ctx.equal(d, d2, "AccSignal.displacement vs array level (n=%d)" % n)
-    al = a.astype(LD)
-    inc_v = LD(dt) * (al[1:] + al[:-1]) / 2
-    vref = np.concatenate([[LD(0)], np.cumsum(inc_v)])
-    ctx.close(v, vref, np.concatenate([[0.0], _run_bound(np.asarray(inc_v, dtype=float))]), "velocity vs long-double running sum (n=%d)" % n)
-    vl = v.astype(LD)
-    inc_d = LD(dt) * (vl[1:] + vl[:-1]) / 2
-    dref = np.concatenate([[LD(0)], np.cumsum(inc_d)])
-    ctx.close(d, dref, np.concatenate([[0.0], _run_bound(np.asarray(inc_d, dtype=float))]), "displacement vs long-double running sum (n=%d)" % n)
-    ctx.check(asig.pga == np.max(np.abs(a)) and asig.pgv == np.max(np.abs(v)) and asig.pgd == np.max(np.abs(d)), "peaks of a giant record")
+    _check_series(ctx, "calc_velo_and_disp_from_accel_arr (n=%d)" % n, a, dt, v2, d2, True)
+
+
+# ---------------------------------------------------------------------------
+# mid-range sizes and option crosses (notes/brief_midrange.md).  A code path that exists only inside a window of record lengths
+# (a blocked integration with a carry, a chunked maximum, a cache kept for mid-size records) is invisible between the drawn lengths
+# (<= 5000, a few 60 000..150 000) and the giant ones (>= 2^20).  One length per logarithmic bin (placed by VERIF_SEED) plus lengths
+# aimed at the integer literals of the tree under test; at every length BOTH integration rules, BOTH array-level entry points, the
+# object level with a hashed read order, a history (switch the rule, hand over a new record of another length), linearity and the
+# closed forms - every sample of every output is held to the reference model.
+
+_MID_DTS = [0.0025, 0.004, 0.005, 0.01, 0.02, 1.0 / 128, 0.05]
+_MID_CONT = ["int", "list", "view", "negstride", "readonly"]
+
+
+def _mid_record(n, seed, kind="burst"):
+    """Ordinary, nowhere-zero data whose every stretch is distinct: noise x envelope + sine + offset (non-zero mean)."""
+    rs = np.random.RandomState(seed % (2 ** 31 - 1))
+    t = (np.arange(n) + 1.0) / n
+    if kind == "walk":
+        x = np.cumsum(rs.standard_normal(n)) / math.sqrt(n) + 0.1 * rs.standard_normal(n) + 0.02
+    elif kind == "sines":
+        x = np.sin(2 * math.pi * (3 + seed % 17) * t + 0.4) + 0.5 * np.sin(2 * math.pi * (0.37 * n / (5 + seed % 7)) * t) + 0.03 * rs.standard_normal(n) - 0.04
+    else:
+        env = 0.15 + 1.8 * (4 * t) ** 2 * np.exp(-4 * t)
+        x = rs.standard_normal(n) * env + 0.3 * np.sin(2 * math.pi * (5 + seed % 23) * t + 0.7) + 0.05
+    return x * 10.0 ** (seed % 5 - 2)
+
+
+def _mid_container(a, how):
+    if how == "int":
+        top = float(np.max(np.abs(a)))
+        arg = np.array(np.round(a * (1e5 / top)), dtype=np.int64)
+        return arg, arg.astype(float)
+    arg = gen.as_container({"as": how}, a)
+    return arg, np.array(arg, dtype=float)
+
+
+def _mid_sizes(tier, tag):
+    if tier == "quick":
+        return gen.size_ladder(2000, 300000, 14, tag, mined_limit=8)
+    return gen.size_ladder(2000, 2000000, 36, tag + ":t", mined_limit=24)
+
+
+def _mid_enum(tier, shard, nshards):
+    for i, n in enumerate(_mid_sizes(tier, "c08:n")):
+        if i % nshards == shard:
+            h = _hh(gen.run_seed(), "c08:mid", i, n)
+            yield {"n": int(n), "seed": h % (2 ** 31 - 1), "dt": _MID_DTS[h % len(_MID_DTS)], "i": i}
+
+
+@enum_clause(CLAUSES, "mid-range", _mid_enum, quick_shards=4,
+             rule="record lengths: one per logarithmic bin of [2 000, 300 000] (14 bins; thorough 36 bins to 2 000 000) placed by VERIF_SEED, plus "
+                  "lengths c-1, c, c+1, 2c+1, 3c+2 for integer literals c of the tree under test; at every length: both rules x both "
+                  "array-level entry points, one container variant, object level with hashed read order, history (rule switched, new "
+                  "record of another length through reset_values), linearity, closed forms; non-trivial = always (nowhere-zero burst / "
+                  "walk / sine records with an offset)",
+             oracle="reference model on every sample of every output: local increment bound + long-double running sum (velocity and "
+                    "displacement), peaks == max|.|; linearity and closed forms as `consequences`",
+             exhaustive_note="the laddered and mined lengths x {trapezoid, rectangle} x {array level, alias, object level}")
+def mid_range(case, ctx):
+    n, seed, dt = int(case["n"]), int(case["seed"]), case["dt"]
+    kind = ["burst", "burst", "walk", "sines"][seed % 4]
+    a = _mid_record(n, seed, kind)
+    ctx.nt(True)
+    ctx.cls("kind=" + kind, gen.size_class(n))
+    calc, alias = disp_mod.calc_velo_and_disp_from_accel_arr, disp_mod.velocity_and_displacement_from_acceleration
+    form = core.call_form(case)
+    # 1. array level, both rules, both entry points (the spelling of the flag alternates)
+    for trap in (True, False):
+        for fn, fm in ((calc, form), (alias, "kw" if form == "pos" else "pos")):
+            v, d = ctx.libf(fm, fn, ["trap"], a, dt, trap=trap)
+            _check_series(ctx, "%s(trap=%s)" % (fn.__name__, trap), a, dt, v, d, trap)
+    v, d = ctx.lib(calc, a, dt)
+    _check_series(ctx, "calc_velo_and_disp_from_accel_arr (default trap)", a, dt, v, d, True)
+    # 2. a container variant of the same record
+    how = _MID_CONT[(seed // 7) % len(_MID_CONT)]
+    trap_c = bool((seed // 3) % 2)
+    arg, ac = _mid_container(a, how)
+    ctx.cls("as=" + how)
+    v, d = ctx.libf(form, calc, ["trap"], arg, dt, trap=trap_c)
+    _check_series(ctx, "calc_velo_and_disp_from_accel_arr(%s record, trap=%s)" % (how, trap_c), ac, dt, v, d, trap_c)
+    pk = ctx.lib(im.calc_peak, arg)
+    ctx.check(pk == _maxabs(ac), "calc_peak(%s record) = %r, max|.| = %r (n=%d)" % (how, pk, _maxabs(ac), n))
+    # 3. object level, hashed read order; calc_peak on the three series
+    order = _read_order(seed // 11)
+    ctx.cls("first=" + order[0])
+    asig = ctx.lib(eqsig.AccSignal, a, dt)
+    got = _check_object(ctx, "AccSignal (n=%d)" % n, asig, a, dt, True, order)
+    for name, ser in (("acceleration", a), ("velocity", np.asarray(got["velocity"])), ("displacement", np.asarray(got["displacement"]))):
+        for s_ in (1.0, -1.0):
+            pk = ctx.lib(im.calc_peak, s_ * ser)
+            ctx.check(pk == _maxabs(ser), "calc_peak(%s%s) = %r, max|.| = %r (n=%d)" % ("-" if s_ < 0 else "", name, pk, _maxabs(ser), n))
+    # 4. history: rectangle rule on the object whose trapezoid series and peaks were read, then a new record of another length
+    ctx.libf(form, asig.generate_displacement_and_velocity_series, ["trap"], trap=False)
+    _check_object(ctx, "after generate_displacement_and_velocity_series(trap=False) (n=%d):" % n, asig, a, dt, False, _order_first(3, seed // 13))
+    fresh = ctx.lib(eqsig.AccSignal, arg, dt)
+    ctx.lib(fresh.generate_displacement_and_velocity_series, trap=False)
+    _check_object(ctx, "fresh %s object after generate_displacement_and_velocity_series(trap=False) (n=%d):" % (how, n), fresh, ac, dt, False,
+                  _order_first(4 if seed % 2 else 1, seed // 17))
+    n2 = max(2, int(n * (0.55 + 0.9 * _hu(seed, "n2"))))
+    b = _mid_record(n2, seed // 5 + 1, ["walk", "burst", "sines"][seed % 3])
+    ctx.lib(asig.reset_values, b)
+    _check_object(ctx, "after reset_values(record of %d samples) on an object that held %d:" % (n2, n), asig, b, dt, True, _read_order(seed // 19))
+    ctx.lib(asig.generate_displacement_and_velocity_series, trap=False)
+    ctx.lib(asig.reset_values, a[::-1].copy())
+    _check_object(ctx, "after reset_values(record of %d samples) on an object with rectangle-rule series of %d:" % (n, n2), asig, a[::-1], dt, True,
+                  _order_first(1 if seed % 2 else 4, seed // 23))
+    # 5. linearity at this length (one rule) and the closed forms
+    al = (-1.0) ** (seed % 2) * 10.0 ** (4 * _hu(seed, "al") - 2)
+    be = (-1.0) ** (seed // 2 % 2) * 10.0 ** (4 * _hu(seed, "be") - 2)
+    bb = _mid_record(n, seed // 3 + 2, "walk")
+    _linearity(ctx, a, bb, al, be, dt, bool(seed // 29 % 2))
+    _closed_forms(ctx, 200 * _hu(seed, "c") - 100, (200 * _hu(seed, "s") - 100) * (seed % 3 != 0), n, dt, "const" if seed % 3 == 0 else "linear")
+
+
+def _opt_enum(tier, shard, nshards):
+    sizes = gen.ladder(600, 40000, 6 if tier == "quick" else 18, "c08:opt" + tier)
+    k = 0
+    for trap in (True, False):
+        for entry in ("calc", "alias", "object-generate", "object-lazy"):
+            for how in ["f64"] + _MID_CONT:
+                for form in ("kw", "pos"):
+                    for first in ("velocity", "displacement", "pgv", "pgd"):
+                        if entry.startswith("object") or first == "velocity":
+                            if entry == "object-lazy" and (not trap or form == "pos"):
+                                continue  # the lazy path has no flag
+                            if k % nshards == shard:
+                                h = _hh(gen.run_seed(), "c08:opt", k)
+                                yield {"n": int(sizes[h % len(sizes)]), "seed": h % (2 ** 31 - 1), "dt": [0.005, 0.01, 2.0 ** -7, 0.37, 2][k % 5],
+                                       "trap": trap, "entry": entry, "as": how, "form": form, "first": first}
+                            k += 1
+
+
+@enum_clause(CLAUSES, "mid-range-options", _opt_enum, quick_shards=2,
+             rule="cross product {trapezoid, rectangle} x {calc_velo_and_disp_from_accel_arr, alias, AccSignal regenerated with the flag, "
+                  "AccSignal lazily loaded} x {float64, int64, list, view, negative stride, read-only} x {flag by keyword, positionally} x "
+                  "{velocity, displacement, pgv, pgd read first}; lengths from a ladder 600..40 000; dt incl. a python int",
+             oracle="reference model on every sample (as `mid-range`); peaks == max|.|",
+             exhaustive_note="the option cross product")
+def mid_range_options(case, ctx):
+    n, seed, dt, trap, how = int(case["n"]), int(case["seed"]), case["dt"], case["trap"], case["as"]
+    a0 = _mid_record(n, seed, ["burst", "walk", "sines"][seed % 3])
+    arg, a = _mid_container(a0, how) if how != "f64" else (a0, a0)
+    ctx.nt(True)
+    ctx.cls("entry=" + case["entry"], "as=" + how, "trap" if trap else "rect", "first=" + case["first"])
+    if not case["entry"].startswith("object"):
+        fn = disp_mod.calc_velo_and_disp_from_accel_arr if case["entry"] == "calc" else disp_mod.velocity_and_displacement_from_acceleration
+        v, d = ctx.libf(case["form"], fn, ["trap"], arg, dt, trap=trap)
+        _check_series(ctx, "%s(%s record, trap=%s, %s)" % (fn.__name__, how, trap, case["form"]), a, dt, v, d, trap)
+        return
+    first = _READS.index(case["first"])
+    order = _order_first(first, seed)
+    asig = ctx.lib(eqsig.AccSignal, arg, dt)
+    if case["entry"] == "object-generate":
+        if seed % 2:  # with or without a previous read of the default series and peaks
+            _ = [getattr(asig, nm) for nm in _read_order(seed // 2)]
+            ctx.cls("regenerated-after-read")
+        ctx.libf(case["form"], asig.generate_displacement_and_velocity_series, ["trap"], trap=trap)
+    _check_object(ctx, "AccSignal(%s record), %s, trap=%s:" % (how, case["entry"], trap), asig, a, dt, trap, order)
